@@ -50,6 +50,17 @@ CHECKS = {
              "already executed under lazy-BB cannot be inlined by later modules - recorded in DESIGN.md as out of this property). A function export "
              "arriving after an external of the same name without permission is treated as unspecified.",
         design="3/C13"),
+    "C02": dict(
+        technique=TECH + "reference-semantics oracle (transcribed from MIR.md) over opcode x operand-form x engine, boundary-value grid",
+        text="For every non-control opcode and every compare/branch opcode a module with one function per operand form (registers, every "
+             "dst/src aliasing, memory of every legal type for every operand incl. neighbour-clobber detection, base+index*scale+disp, "
+             "immediates specialised per grid value in either position, both immediates) is run on interp, interp through the C interface and "
+             "gen -O0..-O3 over the full cross product of a 46-value integer / 30-value FP boundary grid (~38M evaluations) and compared with an "
+             "independent implementation of MIR.md's semantics, so a fault shared by all engines (loader, simplifier) is also seen. Fast and "
+             "ASan/assert builds.",
+        note="Trusted: h/sem.h (my transcription of MIR.md). Values outside the grid are not sampled in quick; results MIR.md leaves undefined "
+             "are not compared.",
+        design="3/C02"),
     "C14": dict(
         technique=TECH + "layout/content oracle recomputed from the declarations, read from the live process after load+link",
         text="Generated modules of 3-40 data-like items (every element type, lengths incl. 0, named/anonymous mixtures, sections interrupted by "
